@@ -250,9 +250,8 @@ class TcpConnection():
                 return True
 
             except OSError as e:
-                if e.args[0] == 10057:
-                    self.connection_attempts -= self.connection_attempts
-                    return False
+                self.connection_attempts -= self.connection_attempts
+                return False
 
 
 
